@@ -2,7 +2,8 @@
 
 MC      MC_Xfr (Xfr.tla on itself): every AXFR / IXFR stream of the bounded universe (single SOA, AXFR-style,
         1-2 difference sequences; serial pairs incl. RFC 1982 wrap-around) x every composition into envelopes
-        x TSIG on/off x <= 1 fault (nosoa, rcode, id, close, cut, alter, unsign, wrongkey, drop, dup, swap)
+        x TSIG on/off x <= 1 fault (nosoa, rcode, id, close, cut, alter, unsign, wrongkey, drop, dup, swap; MAC field
+        emptied / cut to 1, 9, 10 octets / extended = error, cut to half or by one octet = AMBIG, RFC 8945 5.2.2.1)
         x optional envelope after the end: the end point is unique (no proper prefix of a complete transfer is
         complete); the receiver machine (first, n, axfr, serial, macPrev, timersOnly) stops exactly where the
         grammar says; no fault => everything delivered, no error, nothing read past the closing SOA;
@@ -13,10 +14,15 @@ GEN     Gen_Xfr (= MC_Xfr with EmitBehaviours, sharded, invariants on) exports e
         error, channel closed, connection closed, octets left unread.
 TV in   `xfr record in`: random transfers beyond the bounds (<= 40 records, <= 5 difference sequences, empty
         envelopes, <= 2 faults) -> Trace_Xfr predicts the observation.
-TV out  `xfr record out`: real dns.Server on an in-memory listener, handler = Transfer.Out -> Trace_Xfr (wire =
+TV out  `xfr record out`: real dns.Server on an in-memory listener, handler = Transfer.Out, one to three requests
+        (signed / wrong secret / unsigned) back to back on every connection -> Trace_Xfr (wire =
         chunks fed, IDs, complete exactly at the last envelope, every envelope signed for a verified request) and
         Trace_Tsig + `tsig judge` (every MAC = HMAC over the specification's digest input chained on the previous
-        MAC, timers only from the 2nd envelope; TsigStatus of the request).
+        MAC, timers only from the 2nd envelope, every answer validated from scratch on the MAC of its own request;
+        TsigStatus of the request; single-bit alterations of the envelopes verified as Transfer.ReadMsg would).
+
+Known finding shared with C11 (known-findings.d/C15.txt): tsig/verify:accepts-invalid:tsig-class-altered (the class of the
+TSIG record is not covered by the MAC; seen on the first envelope of signed transfers in TV out).
 
 Findings of this check on the pinned tree, since repaired in /repo (`fixed:` in known-findings.txt; the keys are
 still computed, so a regression is reported under the same name):
@@ -44,6 +50,8 @@ Mutants (checks/mutants/C15, each must give exit 1):
   rcode-ixfr-first-only         GEN (fault-not-reported:rcode in IXFR)
   axfr-rcode-first-envelope-only  (reverts fix 6af98ba) GEN (rcode-not-reported:envelope>1)
   ixfr-serial-integer-compare     (reverts fix a3ad563) GEN (incomplete-reported-complete / uptodate-answer-not-recognised)
+  mac-truncation-accepted         (seeded change C15-2) GEN (fault-not-reported:macempty / mac1 / mac9 / mac10), TV in
+  server-timersonly-not-reset     (seeded change C15-3) TV out (tsig judge: accepts-invalid:mac:server-out on the 2nd answer of a connection)
 """
 import os, json
 import vp
